@@ -492,6 +492,9 @@ def check_fnptr(ctx, P):
             w = fn.find_path("entry", lambda m: m is c, barrier=stores, edge_ok=edge_ok)
             if w is None:
                 o.ok("lazy resolution dominates the call", [c])
+            elif (fn.relfile, g) in inits and _behind_init_flag(P, fn, c, g, inits[(fn.relfile, g)][0][0]):
+                # guarded by the unit's "initialised" flag (event_fd >= 0), which the init function stores only after the pointer
+                o.ok("reached only with event_fd >= 0, which %s stores after resolving the pointer" % inits[(fn.relfile, g)][0][0].name, [c])
             elif (fn.relfile, g) in inits and fn.d.get("static"):
                 # an internal helper of the unit whose init function resolves the pointer; the libc
                 # overrides themselves can be entered before any init and must resolve lazily
@@ -499,6 +502,21 @@ def check_fnptr(ctx, P):
             else:
                 o.fail("`%s` can be reached while `%s` is still NULL" % (c.text, g), site=c, witness=w, construct="call through unresolved " + g)
     ctx.expect_count("calls through fibershim_* pointers", n, 20)
+
+
+def _behind_init_flag(P, fn, call, g, initfn, flag="event_fd"):
+    """the call is unreachable while the unit's init flag still has its initial value (-1), and the init function stores the flag on every
+    path only after it stored the function pointer `g`"""
+    isflag = lambda n: n.k == "ImplicitCastExpr" and n.ck == "LValueToRValue" and strip(n) is not None and strip(n).k == "DeclRefExpr" and strip(n).dk == "global" and strip(n).name == flag
+    if not any(isflag(n) for n in fn.nodes):
+        return False
+    if fn.find_path("entry", lambda m: m is call, edge_ok=forced_edges(fn, atom_from([(isflag, -1)]))) is not None:
+        return False
+    fl = [s_.node for s_ in initfn.stores() if initfn.target_key(s_.target) == ("glob", flag)]
+    ps = [s_.node for s_ in initfn.stores() if initfn.target_key(s_.target) == ("glob", g)]
+    if not fl or not ps:
+        return False
+    return all(initfn.dominated_by(f_, nodeset(ps)) is None for f_ in fl)
 
 
 def check_close_event(ctx, P, MV):
